@@ -48,6 +48,7 @@ type Config struct {
 	Rounds        int
 	VisAll        bool // every heap access is a scheduling point (race mode)
 	Race          bool // record heap accesses inside VxPar and emit the data-race obligation
+	NoResizeCall  map[int]bool // resize hints whose request (call of resize) is excluded from this instance by assumption
 	NoResize      map[int]bool // resize hints (0 grow, 1 shrink, 2 clear) excluded from this instance by assumption
 	SmallTables   int  // >0: constructors build tables of this many root buckets instead of 32
 	MaxDepth      int
